@@ -12,11 +12,13 @@ import (
 // see _overlay/zz_verif_c20_test.go) only sends it; Class is decided here by the reference reading of RFC 7617
 // below and never looks at how the variant was generated.
 type Variant struct {
-	ID     string `json:"id"`
-	Header string `json:"header"`
-	Absent bool   `json:"absent"`
-	Phase  string `json:"phase"`
-	TCP    bool   `json:"tcp"`
+	ID             string `json:"id"`
+	Header         string `json:"header"`
+	Absent         bool   `json:"absent"`
+	Phase          string `json:"phase"`
+	TCP            bool   `json:"tcp"`
+	MayPass        bool   `json:"may_pass"`         // lenient-right shape: either outcome is accepted
+	PrimeSameRoute bool   `json:"prime_same_route"` // history phase: also sent right after the right credentials on the same route
 
 	Combos      []int `json:"combos"`       // request-header combinations sent with this value (indexes into Config.Combos)
 	TCPCombos   []int `json:"tcp_combos"`   // ... also through main()'s real listener
@@ -157,6 +159,17 @@ func Alphabet(login, pass string, thorough bool) []Variant {
 		add("right_b64_plus_garbage", fmt.Sprintf("ok_plus_%x", g), "Basic "+ok+g)
 	}
 	add("right_b64_plus_valid_quantum", "ok_plus_AAAA", "Basic "+ok+"AAAA")
+	// tokens of exactly the right token's length that cannot be decoded, or only up to a point: the first k quanta of
+	// the right token followed by filler (every k): whatever a decoder leaves in a reused buffer must not be compared
+	for _, fill := range []string{"=", "!", "-", "A="} {
+		for k := 0; k*4 < len(ok); k++ {
+			rest := len(ok) - 4*k
+			f := strings.Repeat(fill, rest/len(fill)+1)[:rest]
+			add("same_length_undecodable", fmt.Sprintf("ok_q%d_fill_%x", k, fill), "Basic "+ok[:4*k]+f)
+		}
+	}
+	add("same_length_undecodable", "ok_len_plus4_pad", "Basic "+strings.Repeat("=", len(ok)+4))
+	add("same_length_undecodable", "ok_len_minus4_pad", "Basic "+strings.Repeat("=", max(len(ok)-4, 0)))
 	add("garbage_plus_right_b64", "bang_plus_ok", "Basic !"+ok)
 	add("garbage_plus_right_b64", "AAAA_plus_ok", "Basic AAAA"+ok)
 	add("right_b64_truncated", "ok_minus_1", "Basic "+ok[:len(ok)-1])
@@ -179,6 +192,8 @@ func Alphabet(login, pass string, thorough bool) []Variant {
 	for i := range out {
 		v := &out[i]
 		v.Class = classify(v.Absent, v.Header, login, pass)
+		v.MayPass = v.Class == clsLenient
+		v.PrimeSameRoute = v.Family == "same_length_undecodable" || fullProductReps[v.ID]
 		switch v.Class {
 		case clsRight:
 			v.Phase = "allow"
